@@ -24,6 +24,7 @@ int main (int argc, char **argv)
   else if (!strcmp (fn, "_dbus_validate_bus_name")) { got = _dbus_validate_bus_name (&s, 0, n); want = ref_bus_name_full (buf, n, 0); }
   else if (!strcmp (fn, "_dbus_validate_bus_namespace")) { got = _dbus_validate_bus_namespace (&s, 0, n); want = ref_bus_name_full (buf, n, 1); }
   else if (!strcmp (fn, "_dbus_validate_path")) { got = _dbus_validate_path (&s, 0, n); want = ref_path (buf, n); }
+  else if (!strcmp (fn, "_dbus_string_validate_utf8")) { got = _dbus_string_validate_utf8 (&s, 0, n); want = ref_utf8 (buf, n); }
   else if (!strcmp (fn, "_dbus_validate_signature_with_reason")) { got = (_dbus_validate_signature_with_reason (&s, 0, n) == DBUS_VALID); want = spec_signature (buf, n);
       printf ("public API dbus_signature_validate -> %d\n", (int) dbus_signature_validate ((const char *) buf, NULL)); }
   else { fprintf (stderr, "unknown function %s\n", fn); return 2; }
